@@ -84,6 +84,11 @@ def cases(tier, seed):
             # (frame 0 only: in a rotated frame the quality of these right-angled cells raises - known finding
             # C14-regular-quad-raises-degenerate - before the optimisation starts)
             out.append({"grid": "s22c", "jitter": 0, "clamps": [[0, "line_nb"]], "link": "translation", "method": me, "iterations": it, "frame": 0})
+    # the optimum lies beyond the end of the clamp's curve
+    for me in METHODS:
+        for it in (1, 2, 3):
+            out.append({"grid": "h211", "jitter": 2, "clamps": [[0, "curve_short"]], "link": None, "method": me, "iterations": it, "frame": 0})
+            out.append({"grid": "h222", "jitter": 1, "clamps": [[0, "curve_short"]], "link": None, "method": me, "iterations": it, "frame": 4})
     # optimize() called twice on one optimizer (every clamp type; links), invariants after each call
     for ci, cl in enumerate(CLAMPS):
         out.append({"grid": "h222", "jitter": 1, "clamps": [[0, cl]], "link": None, "method": METHODS[ci % 4], "iterations": 2, "frame": frames[ci % 2], "runs": 2})
@@ -302,6 +307,23 @@ def run_case(case):
             flat_k = flat
             if case.get("alias") and kind == "hex":
                 pos = mesh.vertices[to_grid[v]].position  # the vertex's own array, as the library's examples do
+            if cname == "curve_short":
+                # a curve through the vertex that ENDS before the place the vertex wants to go to (the un-jittered
+                # position): the optimum is the upper end of the parameter range
+                P0 = build(dict(case, jitter=0))[1][v]
+                d0 = float(np.linalg.norm(P0 - pos))
+                u0 = (P0 - pos) / d0
+                c_a, c_b = pos - 0.3 * u0, pos + 0.6 * d0 * u0
+                cl = cb.CurveClamp(pos, cb.LineCurve(c_a, c_b, (0, 1)))
+
+                def dist(p, c_a=c_a, c_b=c_b):
+                    w = (c_b - c_a) / np.linalg.norm(c_b - c_a)
+                    t = float((p - c_a) @ w)
+                    return max(np.linalg.norm((p - c_a) - t * w), max(0.0, -t, t - np.linalg.norm(c_b - c_a)))
+
+                opt.add_clamp(cl)
+                clamped[to_grid[v]] = (cl, dist, cname)
+                continue
             if cname == "line_nb":
                 a0, b0 = P[0].copy(), P[2].copy()
                 cl = cb.LineClamp(pos, a0, b0)
